@@ -32,7 +32,10 @@ CLAIM = dict(
           "C17_getter_pure (about the plain model, no hypotheses): every byte of every region outside the explicit "
           "footprint of a call keeps its value - the footprint of set_sprite is exactly the bytes of its non-transparent, "
           "non-clipped pixels, so clipped data neither wraps into the next row nor alters other cells - no region changes "
-          "size, getters change nothing. Get-after-set laws: C17_pixel_readback, C17_cell_readback (incl. the shared "
+          "size, getters change nothing. C17_set_sprite_pixels / C17_set_rect_cells: after set_sprite every pixel of the "
+          "sheet (after set_rect_tiles every cell of the map, rows 32-63 read through sprite memory) holds the block's value "
+          "at that offset if the ragged block has a non-TRANSPARENT value there and its old value otherwise (read-back, "
+          "frame, clipping, transparency in one per-cell equation). Get-after-set laws: C17_pixel_readback, C17_cell_readback (incl. the shared "
           "rows), C17_mapget_after_mapset, C17_flagget_after_flagreset, C17_noteget_after_noteset (None fields keep their "
           "value), C17_changet_after_chanset. Bit-level facts are complete vm_compute sweeps over the regenerated kernels "
           "(all bytes, all byte pairs for flags, all 65,536 note words, all note-field updates); loops by induction with "
